@@ -580,10 +580,8 @@ impl Disk
         if fimg.fs_type.len()==0 {
             return Err(Box::new(Error::Range));
         }
-        self.allocate_sector(tslist_ts[0],tslist_ts[1])?; // reserve this sector
-        self.update_last_track(tslist_ts[0])?;
-
-        // write the directory entry
+        // write the directory entry; the image is written before the VTOC buffer is changed, so that a refused
+        // write (write protected image) leaves the buffer equal to the image
         let mut dir_buf = vec![0;256];
         self.read_sector(&mut dir_buf, ts, 0)?;
         let mut dir = DirectorySector::from_bytes(&dir_buf)?;
@@ -593,6 +591,8 @@ impl Disk
         dir.entries[e as usize].name = string_to_file_name(name);
         dir.entries[e as usize].sectors = u16::to_le_bytes((tslist_sectors + data_sectors) as u16);
         self.write_sector(&dir.to_bytes(), ts, 0)?;
+        self.allocate_sector(tslist_ts[0],tslist_ts[1])?; // reserve this sector
+        self.update_last_track(tslist_ts[0])?;
 
         // write the data and TS list as we go
         for s in 0..fimg.end() {
@@ -873,20 +873,27 @@ impl super::DiskFS for Disk {
                         return Err(Box::new(Error::WriteProtected));
                     }
                     let mut tslist_ts = [entry.tsl_track,entry.tsl_sector];
+                    // the sectors are released in the VTOC buffer only after the catalog sector has been written,
+                    // so that a refused write (write protected image) leaves the buffer equal to the image
+                    let mut released: Vec<[u8;2]> = Vec::new();
                     for _try2 in 0..types::MAX_TSLIST_REPS {
                         self.read_sector(&mut buf, tslist_ts, 0)?;
                         let tslist = TrackSectorList::from_bytes(&buf)?;
                         for p in 0..vconst.max_pairs as usize {
                             if tslist.pairs[p*2]>0 && tslist.pairs[p*2]<255 {
-                                self.deallocate_sector(tslist.pairs[p*2], tslist.pairs[p*2+1])?;
+                                released.push([tslist.pairs[p*2], tslist.pairs[p*2+1]]);
                             }
                         }
-                        self.deallocate_sector(tslist_ts[0], tslist_ts[1])?;
+                        released.push(tslist_ts);
                         tslist_ts = [tslist.next_track,tslist.next_sector];
                         if tslist_ts==[0,0] {
                             entry.name[entry.name.len()-1] = entry.tsl_track;
                             entry.tsl_track = 255;
-                            return self.write_sector(&dir.to_bytes(),dir_ts,0)
+                            self.write_sector(&dir.to_bytes(),dir_ts,0)?;
+                            for ts in released {
+                                self.deallocate_sector(ts[0], ts[1])?;
+                            }
+                            return Ok(());
                         }
                     }
                     log::error!("number of track-sector list sectors is not plausible, aborting");
